@@ -74,6 +74,10 @@ def coq_sources(sub):
     return out
 
 
+GEN_OUTPUTS = {"gen_keys": ["Gen/Gen_KeyTables.v", "Gen/Gen_KittySpec.v"], "gen_callgraph": ["Gen/Gen_CallGraph.v"],
+               "gen_uniseg": ["Gen/Gen_Uniseg.v"]}
+
+
 def build_all(log):
     """Regenerate translator output, rebuild proofs, extraction, driver and the
     Go harness from /repo's working tree.  Returns dict with build status."""
@@ -98,6 +102,9 @@ def build_all(log):
             p = sh(cmd, cwd=gen, env=GOENV, check=False)
             if p.returncode != 0:
                 status["gen_ok"] = False
+                # the generated files this translator owns keep their last good text: only the properties whose
+                # theorems depend on them lose their proof
+                status.setdefault("gen_failed", {})[name] = GEN_OUTPUTS.get(name, [])
             for f in sorted(os.listdir(tmp)):
                 dst = os.path.join(COQ, "Gen", f)
                 new = open(os.path.join(tmp, f), "rb").read()
